@@ -523,6 +523,8 @@ def expected_cond(sc):
     etag = sc.get("etag")
     lm = sc.get("lm")
     lm_sec = int(lm.split(".")[0]) if lm and not lm.startswith("now") else None
+    if lm_sec is not None and lm_sec < 0:
+        return "skip"
     if lm and lm.startswith("now"):
         return "skip"
     im, inm = h.get("if-match"), h.get("if-none-match")
@@ -697,7 +699,7 @@ def _c14(sc, ob):
     if (et is not None) != ("etag" in hd) or (et is not None and hd["etag"] != [et.encode("latin1")]):
         return "ETag not exposed unchanged on %d" % st
     lm = sc.get("lm")
-    if lm and not lm.startswith("now"):
+    if lm and not lm.startswith("now") and not lm.startswith("-"):
         if "date" not in hd or "last-modified" not in hd:
             return "Date / Last-Modified missing on %d" % st
         if hd["last-modified"] != [http_date(int(lm.split(".")[0])).encode()]:
@@ -753,6 +755,13 @@ def fam_glue():
         for hs in ([], [("range", "bytes=0-0")], [("range", "items=0-0")], [("range", "bytes=0-0"), ("if-range", '"nomatch"')]):
             k += 1
             base = {"headers": hs, "len": L2, "etag": '"x"', "lm": "%d.0" % LM, "entity_headers": [], "scripts": [], "extra_polls": 1}
+            out.append(dict(base, id="gl%d" % k, method="GET"))
+            out.append(dict(base, id="gl%d:h" % k, method="HEAD"))
+    # modification times at and before the epoch (a file can carry any mtime)
+    for lm in ("0.0", "0.5", "-1.0", "-86400.250000000"):
+        for hs in ([], [("if-modified-since", http_date(LM))], [("if-unmodified-since", http_date(LM))], [("range", "bytes=0-1")]):
+            k += 1
+            base = {"headers": hs, "len": 10, "etag": '"x"', "lm": lm, "entity_headers": [], "scripts": [], "extra_polls": 1}
             out.append(dict(base, id="gl%d" % k, method="GET"))
             out.append(dict(base, id="gl%d:h" % k, method="HEAD"))
     for m in ("POST", "PUT", "OPTIONS", "FOO"):
